@@ -23,6 +23,12 @@ func init() {
 type pairScenario struct {
 	Name string
 	F    func(i int) string
+	// MaxBound caps the preemption bound (0 = rule of lib_sched.go: 2 for short executions, 1 otherwise);
+	// used for scenarios whose executions are expensive (whole circuits, compilations)
+	MaxBound int
+	// Parallel: executions may run side by side in the process when the instrumented tree has no
+	// package-level state (otherwise one at a time, as always)
+	Parallel bool
 }
 
 // pairIsolationHook is set by the scheduler build (-tags verif, instrumented repository packages):
